@@ -96,6 +96,11 @@ func main() {
 			fatal("usage: askreentr ask-stress <histories> <seed> <trace>")
 		}
 		askStress(atoi(args[0]), int64(atoi(args[1])), args[2])
+	case "ask-late":
+		if len(args) != 2 {
+			fatal("usage: askreentr ask-late <runs> <trace>")
+		}
+		askLate(atoi(args[0]), args[1])
 	case "ask-stash":
 		if len(args) != 2 {
 			fatal("usage: askreentr ask-stash <runs> <trace>")
